@@ -18,8 +18,12 @@ import ast
 from ..core import AnalysisError, finish, unparse
 from ..dataflow import Flow, chain, call_name
 from ..link import check_module, sample_of_set
+from ..absint import Interp
+from ..poly import eq
 from ..util import calls_in, qual, formals, returns_of, raises_of, \
     raise_name, has_fact, bind
+from ..terms import Terms, plain, unsite, is_none, mk_cmp, match, V, ANY, \
+    alternatives, subterms, lookup, presence, show, owner_terms
 
 PL = "rig.place_and_route.place"
 PLACERS = {
@@ -104,50 +108,81 @@ def _resolve1(fl, expr, node):
     return expr
 
 
+def _is_call(t, name):
+    return t[0] == "call" and t[1] == ("global", name)
+
+
 def r1_commits(program, rep):
-    specs = [("sequential", PLACERS["sequential"], "placements"),
-             ("rand", PLACERS["rand"], "placements"),
-             ("sa", PL + ".sa.algorithm:_initial_placement", "placement")]
-    for name, spec, pvar in specs:
+    """Every store into the placement map is justified semantically: the
+    value tested for over-allocation is *equal* (an invariant of the
+    interpreter's equality domain, whatever the staging through temporaries
+    and loops) to subtract_resources(machine[loc], vertices_resources[v]) for
+    the loc and v being committed, and the same value becomes machine[loc]."""
+    specs = [("sequential", PLACERS["sequential"]),
+             ("rand", PLACERS["rand"]),
+             ("sa", PL + ".sa.algorithm:_initial_placement")]
+    for name, spec in specs:
         fn = program.get(spec)
         inst = qual(fn)
-        fl = Flow(fn)
-        cfg = fl.cfg
-        stores = [n for n in ast.walk(fn) if isinstance(n, ast.Assign) and
-                  isinstance(n.targets[0], ast.Subscript) and
-                  chain(n.targets[0].value) == pvar]
+        T = Terms(fn)
+        fl = T.flow
+        cfg = T.cfg
+        it = Interp(fn, pure_calls=("subtract_resources", "overallocated",
+                                    "add_resources"))
+        params = formals(fn)
+        mach = "machine"
+        vres = "vertices_resources"
+        if mach not in params or vres not in params:
+            raise AnalysisError("%s: machine / vertices_resources formals" %
+                                name)
+        rets = [T.term(r.value) for r in returns_of(fn)
+                if r.value is not None]
+        stores = []
+        for n in cfg.nodes:
+            st = n.ast
+            if n.kind == "stmt" and isinstance(st, ast.Assign) and \
+                    len(st.targets) == 1 and \
+                    isinstance(st.targets[0], ast.Subscript):
+                base = T.term(st.targets[0].value, n)
+                if base in rets and base[0] == "new":
+                    stores.append((n, st))
+        mstores = [(n, n.ast) for n in cfg.nodes
+                   if n.kind == "stmt" and isinstance(n.ast, ast.Assign) and
+                   len(n.ast.targets) == 1 and
+                   isinstance(n.ast.targets[0], ast.Subscript) and
+                   plain(T.term(n.ast.targets[0].value, n)) in (
+                       ("param", mach),
+                       ("call", ("attr", ("param", mach), "copy"), (), ()))]
         n_mov = 0
-        for st in stores:
-            node = cfg.node_of(st)
-            v = chain(st.targets[0].slice)
-            loc = chain(st.value)
-            facts = fl.facts(node)
-            constrained = any(unparse(c).startswith("isinstance(") and
-                              "LocationConstraint" in unparse(c) and p
-                              for c, p, _ in facts)
+        for node, st in stores:
+            vexp, lexp = st.targets[0].slice, st.value
+            V, LOC = T.term(vexp, node), T.term(lexp, node)
+            facts = T.all_facts(node)
+            constrained = any(p and _is_call(t, "isinstance") and
+                              "LocationConstraint" in show(t)
+                              for t, p in facts)
             if constrained:
-                ok_in = has_fact(facts, "%s not in machine" % loc, False)
-                # afterwards: machine[loc] = subtract(...) then overallocated
-                # -> raise
-                upd = [d for d in fl.defs if d.var == "machine" and
-                       d.mode == "mut" and isinstance(d.node.ast, ast.Assign)
-                       and cfg.reaches(node, d.node) and
-                       unparse(d.node.ast.targets[0]) == "machine[%s]" % loc]
-                ok_upd = False
-                ok_chk = False
-                for d in upd:
-                    val = d.node.ast.value
-                    if isinstance(val, ast.Call) and \
-                            call_name(val)[0] == "subtract_resources" and \
-                            unparse(val.args[0]) == "machine[%s]" % loc:
-                        r2 = _resolve1(fl, val.args[1], d.node)
-                        ok_upd = unparse(r2) == "vertices_resources[%s]" % v
+                MACH = T.term(ast.parse(mach, mode="eval").body, node)
+                ok_in = (mk_cmp("In", LOC, MACH), True) in facts
+                CELL = ("item", MACH, LOC)
+                VRES = T.term(ast.parse(vres, mode="eval").body, node)
+                want = ("call", ("global", "subtract_resources"),
+                        (CELL, ("item", VRES, V)), ())
+                ok_upd = ok_chk = False
+                for mn, ms in mstores:
+                    if not cfg.reaches(node, mn):
+                        continue
+                    if T.term(ms.targets[0], mn) == CELL and \
+                            plain(T.term(ms.value, mn)) == plain(want):
+                        ok_upd = True
                         for r in raises_of(fn):
-                            if raise_name(r) == "InsufficientResourceError"\
-                                    and has_fact(fl.facts(cfg.node_of(r)),
-                                                 "overallocated(machine[%s])"
-                                                 % loc, True) and \
-                                    cfg.dominates(d.node, cfg.node_of(r)):
+                            rn = cfg.node_of(r)
+                            if raise_name(r) == "InsufficientResourceError" \
+                                    and cfg.dominates(mn, rn) and any(
+                                        p and _is_call(t, "overallocated")
+                                        and plain(t[2][0]) in (plain(CELL),
+                                                               plain(want))
+                                        for t, p in T.all_facts(rn)):
                                 ok_chk = True
                 rep.check(ok_in and ok_upd and ok_chk, "C02-R1", inst,
                           "a location-constrained vertex is placed only on "
@@ -157,54 +192,43 @@ def r1_commits(program, rep):
                           construct="constrained commit", node=st)
                 continue
             n_mov += 1
-            # movable: dominated by  not overallocated(X),
-            # X = subtract_resources(machine[loc], vertices_resources[v])
-            xs = [c for c, p, _ in facts if not p and
-                  isinstance(c, ast.Call) and
-                  call_name(c)[0] == "overallocated"]
+            inode = it.cfg.node_of(st)
+            want = it.sym("subtract_resources(%s[%s], %s[%s])" % (
+                mach, unparse(lexp), vres, unparse(vexp)), inode)
             ok = False
-            xname = None
-            for c in xs:
-                x = c.args[0]
-                xname = chain(x)
-                xv = _resolve1(fl, x, node)
-                if isinstance(xv, ast.Call) and \
-                        call_name(xv)[0] == "subtract_resources" and \
-                        [unparse(a) for a in xv.args] == [
-                            "machine[%s]" % loc,
-                            "vertices_resources[%s]" % v]:
-                    # same loc / v as at the test: no re-definition between
-                    dn = fl.reaching(xname, node)[0].node if xname else node
-                    ok = all([q.id for q in fl.reaching(nm, dn)] ==
-                             [q.id for q in fl.reaching(nm, node)]
-                             for nm in (loc, v))
+            for c, p, a in fl.facts(node):
+                if p or not (isinstance(c, ast.Call) and
+                             call_name(c)[0] == "overallocated" and
+                             len(c.args) == 1):
+                    continue
+                x = it.sym(c.args[0], inode)
+                if it.holds_at(inode, eq(x, want)):
+                    ok = True
             rep.check(ok, "C02-R1", inst, "placing a movable vertex is "
-                      "dominated by 'not overallocated(machine[loc] - "
-                      "vertices_resources[v])' for the same loc and v",
-                      construct="capacity test before commit", node=st,
-                      fail="the placement %s[%s] = %s is not guarded by a "
+                      "dominated by 'not overallocated(x)' with x = "
+                      "machine[loc] - vertices_resources[v] for the very loc "
+                      "and v committed", construct="capacity test before "
+                      "commit", node=st,
+                      fail="the placement [%s] = %s is not guarded by a "
                            "capacity test of that very chip and vertex: a "
-                           "chip can be over-filled" % (pvar, v, loc))
-            # followed by machine[loc] = X
+                           "chip can be over-filled" % (unparse(vexp),
+                                                        unparse(lexp)))
+            # ... and machine[loc] becomes that same value
             okm = False
-            if xname:
-                lp = st._parent
-                while lp is not None and not isinstance(lp, (ast.For,
-                                                             ast.While)):
-                    lp = lp._parent
-                heads = [h for h in cfg.loop_head.values()]
-                for d in fl.defs:
-                    if d.var == "machine" and d.mode == "mut" and \
-                            isinstance(d.node.ast, ast.Assign) and \
-                            unparse(d.node.ast.targets[0]) == \
-                            "machine[%s]" % loc and \
-                            chain(d.node.ast.value) == xname:
-                        okm = (d.node is node or cfg.must_pass(
-                            node, lambda n: n is d.node,
-                            targets=heads + [cfg.exit]) or
-                            cfg.dominates(d.node, node)) and \
-                            has_fact(fl.facts(d.node), "overallocated(%s)" %
-                                     xname, False)
+            heads = [h for h in cfg.loop_head.values()]
+            for mn, ms in mstores:
+                if not (mn is node or cfg.dominates(mn, node) or
+                        cfg.must_pass(node, lambda n, mn=mn: n is mn,
+                                      targets=heads + [cfg.exit])):
+                    continue
+                imn = it.cfg.node_of(ms)
+                same_loc = it.holds_at(imn, eq(
+                    it.sym(ms.targets[0].slice, imn), it.sym(lexp, imn)))
+                w2 = it.sym("subtract_resources(%s[%s], %s[%s])" % (
+                    mach, unparse(lexp), vres, unparse(vexp)), imn)
+                same_val = it.holds_at(imn, eq(it.sym(ms.value, imn), w2))
+                if same_loc and same_val:
+                    okm = True
             rep.check(okm, "C02-R1", inst, "and the chip's remaining "
                       "resources are updated with that same subtraction",
                       construct="machine update after commit", node=st,
@@ -537,54 +561,153 @@ def _reads(fn, name, before):
     return False
 
 
+def _Pm(n):
+    return ("param", n)
+
+
 def r5_reservations(program, rep):
+    """Decided on value terms: what is stored where, under which case of the
+    constraint's location, and which test guards each raise."""
     fn = program.get(PL + ".utils:resources_after_reservation")
-    t = unparse(fn)
-    ok = "res = res.copy()" in t and \
-        "res[constraint.resource] -= constraint.reservation.stop - " \
-        "constraint.reservation.start" in t and "return res" in t
-    rep.check(ok, "C02-R5", qual(fn), "a reservation removes stop - start "
-              "units of its resource from a copy",
-              construct="reservation arithmetic", node=fn)
+    T = Terms(fn)
+    res, con = formals(fn)[:2]
+    COPY = ("call", ("attr", _Pm(res), "copy"), (), ())
+    rets = [T.term(r.value) for r in returns_of(fn) if r.value is not None]
+    ok = len(rets) == 1 and plain(rets[0]) == COPY
+    amount_ok = False
+    KEY = ("attr", _Pm(con), "resource")
+    AMT = ("binop", "Sub", ("attr", ("attr", _Pm(con), "reservation"),
+                            "stop"),
+           ("attr", ("attr", _Pm(con), "reservation"), "start"))
+    n_mut = 0
+    for n in T.cfg.nodes:
+        st = n.ast
+        if n.kind != "stmt":
+            continue
+        tgt = val = None
+        if isinstance(st, ast.AugAssign) and \
+                isinstance(st.target, ast.Subscript) and \
+                isinstance(st.op, ast.Sub):
+            tgt = T.term(st.target, n)
+            val = T.term(st.value, n)
+        elif isinstance(st, ast.Assign) and len(st.targets) == 1 and \
+                isinstance(st.targets[0], ast.Subscript):
+            tgt = T.term(st.targets[0], n)
+            v = T.term(st.value, n)
+            if v[0] == "binop" and v[1] == "Sub" and v[2] == tgt:
+                val = v[3]
+        if tgt is None:
+            continue
+        n_mut += 1
+        amount_ok = rets and tgt == ("item", rets[0], KEY) and val == AMT
+    rep.check(ok and amount_ok and n_mut == 1, "C02-R5", qual(fn),
+              "a reservation removes stop - start units of its resource "
+              "from a copy", construct="reservation arithmetic", node=fn)
     ap = program.get(PL + ".utils:apply_reserve_resource_constraint")
-    fl = Flow(ap)
-    t = unparse(ap)
-    okg = "machine.chip_resources = resources_after_reservation(" \
-          "machine.chip_resources, constraint)" in t and \
-          "for location in machine.chip_resource_exceptions" in t and \
-          "machine.chip_resource_exceptions[location] = " \
-          "resources_after_reservation(machine.chip_resource_exceptions[" \
-          "location], constraint)" in t
-    okl = "machine[constraint.location] = resources_after_reservation(" \
-          "machine[constraint.location], constraint)" in t
+    A = Terms(ap)
+    mach, con = formals(ap)[:2]
+    LOC = ("attr", _Pm(con), "location")
+    M = _Pm(mach)
+    EXC = ("attr", M, "chip_resource_exceptions")
+
+    def stores(view):
+        out = []
+        for n in view.cfg.nodes:
+            st = n.ast
+            if n.kind == "stmt" and isinstance(st, ast.Assign) and \
+                    len(st.targets) == 1 and view.live(n) and \
+                    isinstance(st.targets[0], (ast.Subscript,
+                                               ast.Attribute)):
+                out.append((n, plain(view.term(st.targets[0], n)),
+                            plain(view.term(st.value, n))))
+        return out
+
+    def rar(x):
+        return ("call", ("global", "resources_after_reservation"),
+                (x, _Pm(con)), ())
+
+    def guarded(view, n, what):
+        """Every way on from the store passes a test overallocated(x) with x
+        the stored value or the place it was stored in."""
+        gates = []
+        for a in view.cfg.nodes:
+            if a.kind == "assume" and a.polarity:
+                t, p_ = view.cond(a.ast, a, True)
+                t = plain(t)
+                if t[0] == "call" and t[1] == ("global", "overallocated") \
+                        and len(t[2]) == 1 and t[2][0] in what:
+                    gates.append(a)
+        if not gates:
+            return False
+        tests = [g.pred[0] if g.pred else g for g in gates]
+        gate_ids = set()
+        for a in view.cfg.nodes:
+            if a.kind == "assume":
+                t, _ = view.cond(a.ast, a, True)
+                t = plain(t)
+                if t[0] == "call" and t[1] == ("global", "overallocated") \
+                        and len(t[2]) == 1 and t[2][0] in what:
+                    gate_ids.add(a.id)
+        heads = [h for h in view.cfg.loop_head.values()]
+        return view.must_pass(n, lambda x: x.id in gate_ids,
+                              targets=[view.cfg.exit] + heads)
+
+    loc = A.under((is_none(LOC), False))
+    glo = A.under((is_none(LOC), True))
+    sl = stores(loc)
+    CELL = ("item", M, LOC)
+    okl = len(sl) == 1 and sl[0][1] == CELL and sl[0][2] == rar(CELL) and \
+        guarded(loc, sl[0][0], (CELL, rar(CELL)))
+    sg = stores(glo)
+    DEF = ("attr", M, "chip_resources")
+    L = ("elem", EXC)
+    ECELL = ("item", EXC, L)
+    okg = len(sg) == 2 and sorted(x[1:] for x in sg) == sorted(
+        [(DEF, rar(DEF)), (ECELL, rar(ECELL))])
+    if okg:
+        for n, tgt, val in sg:
+            okg = okg and guarded(glo, n, (tgt, val, ("item", M, L))
+                                  if tgt == ECELL else (tgt, val))
     rs = raises_of(ap)
-    okr = len(rs) == 3 and all(raise_name(r) == "InsufficientResourceError"
-                               for r in rs) and all(
-        any(p and isinstance(c, ast.Call) and
-            call_name(c)[0] == "overallocated"
-            for c, p, _ in fl.facts(fl.cfg.node_of(r))) for r in rs)
-    glob = [d for d in fl.defs if d.var == "machine.chip_resources"]
-    okb = bool(glob) and has_fact(fl.facts(glob[0].node),
-                                  "constraint.location is None", True)
-    rep.check(okg and okb, "C02-R5", qual(ap), "a global reservation is "
-              "applied to the default resources and to every exception",
+    okr = bool(rs) and all(raise_name(r) == "InsufficientResourceError"
+                           for r in rs) and all(
+        any(p and t[0] == "call" and t[1] == ("global", "overallocated")
+            for t, p in A.all_facts(A.cfg.node_of(r))) for r in rs)
+    rep.check(okg, "C02-R5", qual(ap), "a global reservation is "
+              "applied to the default resources and to every exception, "
+              "each result being tested for over-allocation",
               construct="global reservation", node=ap)
     rep.check(okl and okr, "C02-R5", qual(ap), "a local reservation is "
               "applied to that chip only; a negative result raises "
               "InsufficientResourceError", construct="local reservation",
               node=ap)
     ov = program.get(PL + ".utils:overallocated")
-    rep.check("any((v < 0 for v in itervalues(res)))" in unparse(ov),
-              "C02-R5", qual(ov), "overallocated = some quantity negative",
-              construct="overallocated", node=ov)
-    for nm, op in (("add_resources", "+"), ("subtract_resources", "-")):
+    O = Terms(ov)
+    r_ = formals(ov)[0]
+    VALS = ("values", _Pm(r_))
+    want = ("call", ("global", "any"),
+            (("genexp", mk_cmp("Lt", ("elem", VALS), ("const", 0)),
+              ((VALS, ()),)),), ())
+    got = [O.term(r.value) for r in returns_of(ov) if r.value is not None]
+    if len(got) != 1:
+        got = [O.search_loop()]
+    rep.check(got == [want], "C02-R5", qual(ov), "overallocated = some "
+              "quantity negative", construct="overallocated", node=ov)
+    for nm, op in (("add_resources", "Add"), ("subtract_resources", "Sub")):
         f = program.get(PL + ".utils:" + nm)
+        F = Terms(f)
         a, b = formals(f)
-        rep.check("{resource: value %s %s.get(resource, 0) for resource, "
-                  "value in iteritems(%s)}" % (op, b, a) in unparse(f),
-                  "C02-R5", qual(f), "%s keeps the first operand's keys and "
-                  "treats missing second-operand entries as 0" % nm,
-                  construct=nm, node=f)
+        E = ("elem", ("items", _Pm(a)))
+        want = ("dictcomp", ("pair", ("comp", E, 0),
+                             ("binop", op, ("comp", E, 1),
+                              ("get", _Pm(b), ("comp", E, 0),
+                               ("const", 0)))),
+                ((("items", _Pm(a)), ()),))
+        got = [plain(F.term(r.value)) for r in returns_of(f)
+               if r.value is not None]
+        rep.check(got == [want], "C02-R5", qual(f), "%s keeps the first "
+                  "operand's keys and treats missing second-operand entries "
+                  "as 0" % nm, construct=nm, node=f)
     rep.floor("C02-R5", 6)
 
 
